@@ -135,6 +135,7 @@ def _traj(spec, ctx, R):
     m, n, r, K = spec["m"], spec["n"], spec["r"], spec["K"]
     rng = gen.rng_for(spec["seed"], "c03traj", spec["idx"])
     A, U, V, s, kind = _make(rng, m, n, r, spec["idx"])
+    A = gen.vary(A, spec["idx"])
     N = min(m, n)
     deficient = r < N
     if r == 0:
@@ -253,14 +254,21 @@ def _traj(spec, ctx, R):
             ctx.check("limit_penrose", d, lb, site=site + ":distance_to_pinv", tags=tg(K, d, lb, 1.0), detail={"K": K})
         # dense vs sparse input (damped solver only)
         if not third and track and spec["idx"] % 2 == 0:
+            kk = min(K, 6)
             try:
                 As = R.sparse_from_dense(A)
-                Xs, ress, covs = solver(min(K, 6)).compute(As)
-                Xd, resd, covd = solver(min(K, 6)).compute(A)
-                same = np.array_equal(refq.fa(Xs), refq.fa(Xd)) and covs == covd and ress == resd
+                Xs, ress, covs = solver(kk).compute(As)
+                Xd, resd, covd = solver(kk).compute(gen.layout(A, "C"))
+                # same iterate and same histories to rounding (a sparse-native implementation need not be bitwise identical)
+                nm = max(refq.fro(Xd), 1e-300)
+                dev = refq.fro(Xs - Xd) / (CT * EPS * (kk + 2) * max(m, n) * kap * nm + 1e-300)
+                hist = max([abs(a - b) / (C * EPS * max(m, n) * (abs(b) + nrmA * nrmA * nm + 1.0)) for key in resd for a, b in zip(ress[key], resd[key])]
+                           + [abs(a - b) / (C * EPS * max(m, n) * (abs(b) + nrmA * nm + 1.0)) for a, b in zip(covs, covd)] + [0.0])
+                ok_len = all(len(ress[key]) == len(resd[key]) for key in resd) and len(covs) == len(covd)
+                val = max(dev, hist) if ok_len else float("inf")
             except Exception as e:
-                same = False
-            ctx.check("dense_sparse_identical", same, site=site, tags=base_tags)
+                val = float("inf")
+            ctx.check("dense_sparse_identical", val, 1.0, site=site, tags=tg(kk, val, 1.0, 1.0) if val > 1 else base_tags)
     ctx.check("input_unchanged", np.array_equal(refq.fa(A), A0), site="all", tags=base_tags)
 
 
